@@ -8,7 +8,7 @@ from sa.domains import CTL, HEXDIG, TCHAR, fmt_set
 from sa.selftest import Mutant, Silent
 from sa.source import AnalysisError, class_assigns, methods
 from sa.props._lib_e import (Raised, Unknown, Unsupported, assigns_self, call_in, calls_named, catches, check_hex_validators, handlers_of, http_interp, is_const,
-                             is_falsy_return, make_env, no_exc, only_nodes_until_exit, ordered, resolve_local, self_attr, walk)
+                             is_falsy_return, make_env, no_exc, only_nodes_until_exit, ordered, resolve_local, risky_calls, self_attr, walk)
 
 PROPERTY = "C22"
 HTTP = "web/http.py"
@@ -26,7 +26,8 @@ EXPLANATION = (
     "trailer limits at L-1/L/L+1, CR/LF split across deliveries) that the decision taken - wait / proceed to the right state / raise "
     "_MalformedChunkedDataError - and the bytes passed to dataCallback / finishCallback are the RFC 9112 7.1 ones; (c) structurally: the size is "
     "decoded only by _hexint inside a ValueError->_MalformedChunkedDataError conversion, all explicit raises of the four parsing states are "
-    "_MalformedChunkedDataError, state/buffer are updated before each call-out and nothing but a return follows it, the extra bytes are taken "
+    "_MalformedChunkedDataError and neither their message construction nor the handler bodies contain an operation that can raise something else on untrusted bytes "
+    "(strict decode/int/index; the stepped runs include size fields with bytes >= 0x80 in every position and record any exception escaping), state/buffer are updated before each call-out and nothing but a return follows it, the extra bytes are taken "
     "before the buffer is cleared, finishCallback has a single site reached only in TRAILER, FINISHED refuses data, noMoreData raises _DataLoss "
     "unless FINISHED. Not decided: equality of decoded and original bytes for all chunkings (only per-step), trailer field syntax."
 )
@@ -182,6 +183,13 @@ def _chunk_length(ctx, I, limit):
     for bad in (b"g", b"", b"0x5", b"+5", b"-5", b" 5", b"5 ", b"1_0", b"5\t", b"\t5", b"5\r", b"5\n", b"\xb2", b"5.0", b"0g", b"\x00"):
         cases.append(("reject/size-not-hex", bad + b"\r\nhello", {}, "raise", [], None, None))
         cases.append(("reject/size-not-hex", bad + b";ext\r\nhello", {}, "raise", [], None, None))
+    for hi in (b"\x80", b"\xff", b"\xe9", b"\xc3\xa9"):
+        for bad in (hi, b"5" + hi, hi + b"5", b"5" + hi + b"5", b"ff" + hi):
+            cases.append(("reject/size-not-hex", bad + b"\r\nhello", {}, "raise", [], None, None))
+            cases.append(("reject/size-not-hex", bad + b";ext=1\r\nhello", {}, "raise", [], None, None))
+    for hi in (b"\x80", b"\xff"):
+        cases.append(("size-line/limit", b"1" * (limit - 2) + hi + b"1\r\nX", {}, "raise", [], None, None))
+        cases.append(("size-line/limit-unterminated", hi * (limit + 1), {}, "raise", [], None, None))
     must_reject = (CTL - {9}) | {127}
     must_accept = TCHAR | set(b';="\t ') | set(range(0x80, 0x100))
     for v in range(256):
@@ -244,6 +252,14 @@ def _chunk_length(ctx, I, limit):
 def _raise_kinds(ctx, I):
     for name in PARSING:
         f = ctx.func(HTTP, "_ChunkedTransferDecoder." + PREFIX + name)
+        # building the rejection must not itself raise something else on untrusted bytes
+        regions = [(r, r.exc) for r in ast.walk(f) if isinstance(r, ast.Raise) and r.exc is not None]
+        regions += [(st, st) for h in ast.walk(f) if isinstance(h, ast.ExceptHandler) for st in h.body if not isinstance(st, ast.Raise)]
+        for st, region in regions:
+            bad = risky_calls(region)
+            ctx.check(not bad, "reject/reject-path-cannot-raise-otherwise", ctx.construct(QD + PREFIX + name, st),
+                      (f"on the reject path {src(bad[0])} can raise (UnicodeDecodeError / ValueError) for untrusted bytes before _MalformedChunkedDataError is raised: "
+                       "the exception leaves dataReceived uncaught (no 400, no disconnect)") if bad else "")
         for r in [n for n in ast.walk(f) if isinstance(n, ast.Raise)]:
             nm = call_attr(r.exc) if isinstance(r.exc, ast.Call) else (dotted(r.exc) if r.exc is not None else None)
             ctx.check(nm == BAD, "reject/raises-malformed", ctx.construct(QD + PREFIX + name, r),
@@ -395,6 +411,10 @@ MUTANTS = [
     Mutant("terminator-taken-as-trailer-field", HTTP, "        if eolIndex > 0:\n            # A trailer header was detected.", "        if eolIndex >= 0:\n            # A trailer header was detected.", expect_rule="finish/extra-bytes"),
     Mutant("dispatch-on-empty-buffer", HTTP, "        while goOn and self._buffer:", "        while goOn:", expect_rule="states/no-dispatch-on-empty-buffer"),
     Mutant("chunk-end-leaves-lf", HTTP, "        del self._buffer[0:2]\n        return True", "        del self._buffer[0:1]\n        return True", expect_rule="chunk-end/crlf-consumed"),
+    Mutant("reject-message-decodes-size-strictly", HTTP, "            raise _MalformedChunkedDataError(\"Chunk-size must be an integer.\")",
+           "            raise _MalformedChunkedDataError(\"Chunk-size must be an integer: \" + rawLength.decode(\"ascii\"))", expect_rule="reject/"),
+    Mutant("extension-message-decodes-strictly", HTTP, "                f\"Invalid characters in chunk extensions: {ext!r}.\"", "                \"Invalid characters in chunk extensions: \" + ext.decode(\"utf-8\")",
+           expect_rule="reject/"),
     Mutant("state-literal-typo", HTTP, "        if self.state != \"FINISHED\":", "        if self.state != \"FINISH\":", expect_rule="states/closed"),
     Mutant("data-loss-not-reported", HTTP, "        if self.state != \"FINISHED\":\n            raise _DataLoss(", "        if self.state == \"CHUNK_LENGTH\":\n            raise _DataLoss(", expect_rule="dataloss/reported-unless-finished"),
     Mutant("finished-accepts-data", HTTP, "        raise RuntimeError(\n            \"_ChunkedTransferDecoder.dataReceived called after last \"\n            \"chunk was processed\"\n        )", "        return False", expect_rule="finished/refuses-data"),
@@ -413,6 +433,9 @@ SILENT = [
            "        eol = eolIndex = self._buffer.find(b\"\\r\\n\", self._start)\n\n        if eol >= maxChunkSizeLineLength or (\n            eol < 0 and len(self._buffer) > maxChunkSizeLineLength\n        ):"),
     Silent("body-branches-inverted-clear-method", HTTP, "        if len(self._buffer) >= self.length:\n            chunk = memoryview(self._buffer)[: self.length].tobytes()\n            del self._buffer[: self.length]\n            self.state = \"CRLF\"\n            self.dataCallback(chunk)\n        else:\n            chunk = bytes(self._buffer)\n            self.length -= len(chunk)\n            del self._buffer[:]\n            self.dataCallback(chunk)\n        return True",
            "        if len(self._buffer) < self.length:\n            chunk = bytes(self._buffer)\n            self.length -= len(chunk)\n            self._buffer.clear()\n            self.dataCallback(chunk)\n            return True\n        chunk = bytes(self._buffer[: self.length])\n        del self._buffer[: self.length]\n        self.state = \"CRLF\"\n        self.dataCallback(chunk)\n        return True"),
+    Silent("reject-message-repr", HTTP, "            raise _MalformedChunkedDataError(\"Chunk-size must be an integer.\")", "            raise _MalformedChunkedDataError(\"Chunk-size must be an integer, not %r.\" % (bytes(rawLength),))"),
+    Silent("reject-message-decode-replace", HTTP, "            raise _MalformedChunkedDataError(\"Chunk-size must be an integer.\")",
+           "            raise _MalformedChunkedDataError(\"Chunk-size must be an integer, not {}.\".format(rawLength.decode(\"ascii\", \"replace\")))"),
     Silent("extra-by-bytes-slice", HTTP, "        data = memoryview(self._buffer)[2:].tobytes()", "        data = bytes(self._buffer[2:])"),
     Silent("state-then-length-reordered", HTTP, "        self.length = length\n        del self._buffer[0 : eolIndex + 2]\n        self._start = 0\n        return True\n\n    def _dataReceived_CRLF",
            "        self._start = 0\n        del self._buffer[0 : eolIndex + 2]\n        self.length = length\n        return True\n\n    def _dataReceived_CRLF"),
